@@ -128,3 +128,48 @@ class target_of_own(Contract):
 
     def raises(self, where, func):
         return {'TransformReferenceError': cls_name(where) == 'ExprCursor'}
+
+
+class SiteRewriter__record_at(Contract):
+    """BOUNDED STAND-IN: the log recorded so far holds exactly 2 edits (an edit of an unrelated
+    block is neutral, so this covers 0..2).  Recording a rewrite that does not collide with the
+    log keeps the log pairwise disjoint: edits nested under the rewritten run are dropped."""
+    target = 'fpy2.transform.utils:SiteRewriter._record_at'
+    params = {'self': 'SiteRewriter', 'path': 'FuncBody | SubBlock', 'pos': 'int', 'inserted': 'int', 'removed': 'int'}
+    returns = 'None'
+    properties = ['C19']
+    modifies = ['self.edits']
+    options = {'seq_len': {'self.edits': 2}, 'bounded': 8}
+    note = 'bounded stand-in: the log holds 2 edits when _record_at is called'
+
+    def pre(self, path, pos, inserted, removed):
+        e0, e1 = self.edits[0], self.edits[1]
+        a0, a1 = pos, pos + removed
+        return {
+            'log_disjoint': not overlaps_spec(e0, e1) and not overlaps_spec(e1, e0),
+            # the visitor records a statement after everything inside it, and never twice:
+            # the new rewrite is not inside an old one and does not share statements with one
+            'new_not_under_old': not block_beneath(path, e0.block_path, e0.index, e0.index + e0.removed)
+                                 and not block_beneath(path, e1.block_path, e1.index, e1.index + e1.removed),
+            'new_not_colliding': not (e0.block_path == path and (in_iv(pos, e0.index, e0.index + e0.removed) or in_iv(e0.index, a0, a1)))
+                                 and not (e1.block_path == path and (in_iv(pos, e1.index, e1.index + e1.removed) or in_iv(e1.index, a0, a1))),
+        }
+
+    def post(self, path, pos, inserted, removed, old):
+        L = self.edits
+        n = len(L)
+        new = L[n - 1]
+        e0, e1 = old.self.edits[0], old.self.edits[1]
+        k0 = not block_beneath(e0.block_path, path, pos, pos + removed)
+        k1 = not block_beneath(e1.block_path, path, pos, pos + removed)
+        return {
+            'appended': new.block_path == path and new.index == pos and new.removed == removed and new.inserted == inserted,
+            'still_disjoint': pairwise_disjoint(L),
+            # exactly the old edits not nested under the rewritten run are kept
+            'kept_count': n - 1 == ite(k0, 1, 0) + ite(k1, 1, 0),
+            'kept_first': implies(k0, same_edit(L[0], e0)),
+            'kept_second': implies(k1, same_edit(L[n - 2], e1)) if n >= 2 else not k1,
+        }
+
+    def raises(self, path, pos, inserted, removed):
+        return {'ValueError': pos < 0 or removed < 0 or inserted < 0}
